@@ -6,6 +6,8 @@ Every call of SubgraphSearchEngine.find_subgraph_mappings made by the driver is 
 (plus duplicate / input-mutation / limit / threshold contracts)."""
 from __future__ import annotations
 
+import itertools
+
 import networkx as nx
 
 from oracles import brute as B
@@ -19,7 +21,7 @@ RULE = (
 REQUIRED = ["all_checked", "comp_checked", "bt_checked", "max_results_checked", "threshold_checked",
             "prefilter_checked", "multi_component_patterns", "host_fewer_components", "bt_fallback_used",
             "strict_guard_checked", "hcount_discriminates", "selfcheck_bruteforce_vs_permutations",
-            "big_count_threshold_checked", "molecule_plus_lone_atoms_hosts", "ring_and_chain_hosts", "patterns_with_self_loops"]
+            "big_count_threshold_checked", "molecule_plus_lone_atoms_hosts", "ring_and_chain_hosts", "patterns_with_self_loops", "four_component_pairs"]
 ASSUMPTIONS = [
     "COMPONENT/BACKTRACK with max_results=k: exactly min(k, n) members of the strategy's own unlimited set (which members is not prescribed)",
     "threshold t: [] required when the unlimited result has more than t maps, the full set required when every internal count is <= t, either accepted in between",
@@ -282,6 +284,29 @@ def check_ring_and_chain_hosts(ctx):
                 P2, _ = WG.scramble(P, rng)
                 ctx.count("ring_and_chain_hosts")
                 check_pair(ctx, H2, P2, "ring + chain hosts x 4-6 atom patterns", ("ringchain", hi, pi, rep), light=(rep == 1))
+    # four pattern components whose candidate molecules overlap pairwise, hosts of four molecules in every fragment order
+    hal = {"F": "F", "Cl": "Cl", "Br": "Br", "I": "I"}
+    def halo(pairs):   # list of molecules, each a list of atoms with bonds along the chain
+        G = nx.Graph()
+        nid = 0
+        for mol in pairs:
+            prev = None
+            for el in mol:
+                nid += 1
+                G.add_node(nid, element=el, hcount=0, charge=0, aromatic=False, atom_map=nid, neighbors=[])
+                if prev:
+                    G.add_edge(prev, nid, order=1.0, standard_order=0.0)
+                prev = nid
+        return G
+    P4 = halo([["C", "F"], ["C", "Cl"], ["C", "Br"], ["C", "I"]])
+    mols = [["C", "F"], ["Cl", "C", "C", "I"], ["Cl", "C", "C", "Br"], ["Br", "C", "C", "I"]]
+    for oi, order in enumerate(itertools.permutations(range(4))):
+        if not ctx.mine(oi) or (ctx.quick and oi % 3):
+            continue
+        H4 = halo([mols[i] for i in order])
+        H4, _ = WG.scramble(H4, rng)
+        ctx.count("four_component_pairs")
+        check_pair(ctx, H4, WG.scramble(P4, rng)[0], "four-component pattern x four-molecule hosts", ("four", oi), light=True)
     for t in range(30 if ctx.quick else 600):
         if not ctx.mine(t):
             continue
